@@ -225,7 +225,7 @@ fn gen_modules(rng: &mut Rng) -> Vec<(String, String)> {
             s.push('\n');
         }
         // some work in the body so that the evaluation takes a while (wider overlap window)
-        let work = 20 + rng.below(400);
+        let work = 20 + rng.below(200);
         s.push_str("type L = | N | C Int L\n");
         s.push_str("rec let build n acc : Int -> L -> L = if n == 0 then acc else build (n - 1) (C (n + rt.jitter n) acc)\n");
         s.push_str("rec let sum l acc : L -> Int -> Int =\n    match l with\n    | N -> acc\n    | C x xs -> sum xs (acc + x)\n");
@@ -241,7 +241,7 @@ fn gen_modules(rng: &mut Rng) -> Vec<(String, String)> {
 
 fn alloc_work(rng: &mut Rng, s: &mut String, big: bool) -> String {
     // returns an Int expression; defines helpers in `s`
-    let n = if big { 1500 + rng.below(3000) } else { 60 + rng.below(500) };
+    let n = if big { 1500 + rng.below(3000) } else { 40 + rng.below(260) };
     let rounds = 1 + rng.below(3);
     s.push_str("type R = { a : Int, s : String, l : Array Int }\n");
     s.push_str("type L = | N | C R L\n");
@@ -360,7 +360,8 @@ fn gen_world(id: usize, rng: &mut Rng, n_plain: usize, n_pair: usize) -> World {
 fn gen_scenario(id: usize, rng: &mut Rng, world: &World, n: usize) -> Scenario {
     let seed = rng.next_u64();
     let mut r = Rng::new(seed);
-    let stride = *r.pick(&[1usize, 2, 3, 5, 17, 64, 0]);
+    // every forced collection marks the whole live heap: with many threads keep the stride larger
+    let stride = if n >= 8 { *r.pick(&[3usize, 5, 17, 64, 0]) } else { *r.pick(&[1usize, 2, 3, 5, 17, 64, 0]) };
     let fits = |i: &usize| !world.units[*i].big || stride == 0 || stride >= 17;
     let plain: Vec<usize> = (0..world.units.len()).filter(|i| world.units[*i].kind == "plain").filter(fits).collect();
     let pairs: Vec<usize> = (0..world.units.len()).filter(|i| world.units[*i].kind == "pair").filter(fits).collect();
@@ -371,9 +372,9 @@ fn gen_scenario(id: usize, rng: &mut Rng, world: &World, n: usize) -> Scenario {
         2..=6 => "std",
         _ => "all",
     };
-    let root = match r.below(10) {
-        0..=4 => "none",
-        5..=7 => "collect",
+    let root = match r.below(20) {
+        0..=13 => "none",
+        14..=16 => "collect",
         _ => "run",
     };
     let n_pairs = if pairs.is_empty() { 0 } else { r.below((n as u64) / 2 + 1).min(3) as usize };
@@ -827,6 +828,8 @@ fn proc_sample(pid: u32) -> (u64, Vec<String>) {
 }
 
 struct ChildOutcome {
+    /// nested lock acquisitions logged by the optional hook (fixes/hook-locklog.patch); empty without it
+    lock_edges: Vec<(u8, u64, u8, u64)>,
     /// at timeout: CPU ticks (1/100 s) consumed during the last second before the kill, thread states
     cpu_last_s: u64,
     thread_states: Vec<String>,
@@ -843,6 +846,8 @@ fn run_child(mode: &str, file: &std::path::Path, timeout: Duration) -> ChildOutc
     let base = file.with_extension("");
     let out_path = base.with_extension(format!("{}.stdout", mode));
     let err_path = base.with_extension(format!("{}.stderr", mode));
+    let edges_path = base.with_extension(format!("{}.edges", mode));
+    let _ = std::fs::remove_file(&edges_path);
     let mut tries = 0;
     let mut ch = loop {
         let r = Command::new(std::env::current_exe().expect("current_exe"))
@@ -852,6 +857,7 @@ fn run_child(mode: &str, file: &std::path::Path, timeout: Duration) -> ChildOutc
             .stdout(std::fs::File::create(&out_path).expect("stdout file"))
             .stderr(std::fs::File::create(&err_path).expect("stderr file"))
             .env("RUST_BACKTRACE", "0")
+            .env("GLUON_VERIF_LOCK_EDGES", &edges_path)
             .spawn();
         match r {
             Ok(c) => break c,
@@ -901,7 +907,15 @@ fn run_child(mode: &str, file: &std::path::Path, timeout: Duration) -> ChildOutc
         }
         s
     };
-    let o = ChildOutcome { cpu_last_s, thread_states, status, stdout: rd(&out_path), stderr: rd(&err_path), wall_ms: t0.elapsed().as_millis() as u64 };
+    let lock_edges: Vec<(u8, u64, u8, u64)> = rd(&edges_path)
+        .lines()
+        .filter_map(|l| {
+            let w: Vec<&str> = l.split_whitespace().collect();
+            if w.len() == 4 { Some((w[0].parse().ok()?, w[1].parse().ok()?, w[2].parse().ok()?, w[3].parse().ok()?)) } else { None }
+        })
+        .collect();
+    let _ = std::fs::remove_file(&edges_path);
+    let o = ChildOutcome { lock_edges, cpu_last_s, thread_states, status, stdout: rd(&out_path), stderr: rd(&err_path), wall_ms: t0.elapsed().as_millis() as u64 };
     let _ = std::fs::remove_file(&out_path);
     let _ = std::fs::remove_file(&err_path);
     o
@@ -1012,6 +1026,76 @@ fn judge(sc: &Scenario, o: &ChildOutcome, watchdog_s: u64) -> Judged {
     Judged { line: parts.join(" | "), failures, report: rep }
 }
 
+/// The scenario as an input of the extracted Once model: one to-do list per requester (the
+/// thread's c14.m* imports, transitively, dependencies first; model module id = index + 1), fair
+/// rounds long enough for everybody to complete (once_progress).  Returns (command, module ids).
+fn once_command(sc: &Scenario) -> (String, Vec<usize>) {
+    let direct = |src: &str| -> Vec<usize> {
+        let mut v = vec![];
+        for l in src.lines() {
+            if let Some(p) = l.find("import! c14.m") {
+                if let Ok(k) = l[p + 13..].chars().take_while(|c| c.is_ascii_digit()).collect::<String>().parse::<usize>() {
+                    if !v.contains(&k) {
+                        v.push(k);
+                    }
+                }
+            }
+        }
+        v
+    };
+    let deps: Vec<Vec<usize>> = sc.world.modules.iter().map(|m| direct(&m.1)).collect();
+    fn visit(k: usize, deps: &Vec<Vec<usize>>, out: &mut Vec<usize>) {
+        if out.contains(&k) {
+            return;
+        }
+        for d in &deps[k] {
+            visit(*d, deps, out);
+        }
+        out.push(k);
+    }
+    let closure = |src: &str| -> Vec<usize> {
+        let mut out = vec![];
+        for k in direct(src) {
+            visit(k, &deps, &mut out);
+        }
+        out
+    };
+    let mut lists: Vec<Vec<usize>> = vec![];
+    if sc.preload == "all" {
+        let mut all = vec![];
+        for t in &sc.threads {
+            let u = &sc.world.units[t.unit];
+            for k in closure(if t.role == "recv" { &u.recv_src } else { &u.src }) {
+                if !all.contains(&k) {
+                    all.push(k);
+                }
+            }
+        }
+        lists.push(all);
+    }
+    for t in &sc.threads {
+        let u = &sc.world.units[t.unit];
+        lists.push(closure(if t.role == "recv" { &u.recv_src } else { &u.src }));
+    }
+    if sc.root == "run" && sc.root_unit >= 0 {
+        lists.push(closure(&sc.world.units[sc.root_unit as usize].src));
+    }
+    let n = lists.len();
+    let mut mods: Vec<usize> = lists.iter().flatten().map(|k| k + 1).collect();
+    mods.sort();
+    mods.dedup();
+    let work: usize = lists.iter().map(|l| l.iter().map(|k| k + 1 + 2).sum::<usize>()).sum::<usize>() + 1;
+    let mut sched = String::new();
+    for _ in 0..work {
+        for r in 0..n {
+            sched.push_str(&r.to_string());
+            sched.push(' ');
+        }
+    }
+    let ls: Vec<String> = lists.iter().map(|l| l.iter().map(|k| (k + 1).to_string()).collect::<Vec<_>>().join(" ")).collect();
+    (format!("once {} | {}", ls.join(" ; "), sched.trim_end()), mods)
+}
+
 fn scenario_text(sc: &Scenario) -> String {
     let ts: Vec<String> = sc
         .threads
@@ -1063,8 +1147,8 @@ fn main() {
 
     let thorough = args.thorough();
     let n_worlds: usize = args.extra.get("worlds").and_then(|s| s.parse().ok()).unwrap_or(if thorough { 24 } else { 3 });
-    let n_scen: usize = args.extra.get("scenarios").and_then(|s| s.parse().ok()).unwrap_or(if thorough { 1040 } else { 48 });
-    let par: usize = args.extra.get("par").and_then(|s| s.parse().ok()).unwrap_or(3);
+    let n_scen: usize = args.extra.get("scenarios").and_then(|s| s.parse().ok()).unwrap_or(if thorough { 1040 } else { 40 });
+    let par: usize = args.extra.get("par").and_then(|s| s.parse().ok()).unwrap_or(if thorough { 8 } else { 5 });
     let mut rng = Rng::new(args.seed);
 
     // ---- worlds and their solo results (each world in its own process, run in parallel)
@@ -1153,9 +1237,34 @@ fn main() {
             });
         }
     });
+    // A watchdog expiry while the process was still computing may be plain slowness of a loaded
+    // machine (other builders): such scenarios are re-run once, alone, with twice the
+    // watchdog, and the second outcome is the one that is judged.  (A sleeping process is a
+    // deadlock whatever the load and is not re-run.)
+    let mut reruns = 0u64;
+    {
+        let mut oc = outcomes.lock().unwrap();
+        for sc in &scenarios {
+            let busy = {
+                let o = &oc[&sc.id];
+                o.status == "timeout" && !(o.cpu_last_s <= 2 && !o.thread_states.iter().any(|t| t.contains(":R:")))
+            };
+            if busy {
+                reruns += 1;
+                let f = work.join(format!("sc{}-rerun.json", sc.id));
+                std::fs::write(&f, serde_json::to_string(sc).unwrap()).unwrap();
+                let o = run_child("child", &f, Duration::from_secs(2 * watchdog_s));
+                let _ = std::fs::remove_file(&f);
+                oc.insert(sc.id, o);
+            }
+        }
+    }
     let run_ms = t_run.elapsed().as_millis() as u64;
 
     // ---- judge and write
+    let mut once_in = args.file("once_in.txt");
+    let mut impl_once = args.file("impl_once.txt");
+    let mut lock_edges_out = vec![];
     let mut model_in = args.file("model_in.txt");
     let mut impl_out = args.file("impl_out.txt");
     let mut cases = args.file("cases.txt");
@@ -1179,7 +1288,16 @@ fn main() {
         hist.add(&format!("status:{}", o.status));
         hist.addn("threads", sc.threads.len() as u64);
         max_wall = max_wall.max(o.wall_ms);
+        if !o.lock_edges.is_empty() {
+            lock_edges_out.push(serde_json::json!({ "scenario_id": sc.id, "scenario": sc, "edges": o.lock_edges }));
+        }
         if let Some(rep) = &j.report {
+            if o.status == "exit:0" && rep.results.iter().all(|r| r.starts_with("ok ")) && (sc.root != "run" || rep.root_result.starts_with("ok ")) {
+                let (cmd, mods) = once_command(sc);
+                writeln!(once_in, "{}", cmd).unwrap();
+                let ev: Vec<String> = mods.iter().map(|m| format!("{}:{}", m, rep.ticks.get(&format!("m{}", m - 1)).cloned().unwrap_or(0))).collect();
+                writeln!(impl_once, "evals={} complete=true", ev.join(",")).unwrap();
+            }
             forced += rep.forced_collections as u64;
             rootc += rep.root_collections;
             modules_evaluated += rep.ticks.len() as u64;
@@ -1196,6 +1314,9 @@ fn main() {
     model_in.flush().unwrap();
     impl_out.flush().unwrap();
     cases.flush().unwrap();
+    once_in.flush().unwrap();
+    impl_once.flush().unwrap();
+    gvh::out::write_json(&args.out.join("lock_edges.json"), &serde_json::Value::Array(lock_edges_out));
     gvh::out::write_json(&args.out.join("failures.json"), &serde_json::Value::Array(failures));
     gvh::out::write_json(
         &args.out.join("stats.json"),
@@ -1213,6 +1334,7 @@ fn main() {
             "run_ms": run_ms,
             "max_scenario_wall_ms": max_wall,
             "watchdog_s": watchdog_s,
+            "reruns_after_busy_timeout": reruns,
             "hist": hist.to_json(),
         }),
     );
